@@ -39,6 +39,11 @@ def n_cases(tier, seed):
 def _geometry(rng, tier):
     big = 40 if tier == "quick" else 600
     c = rng.choice(["1x1", "1xN", "Nx1", "NxM", "NxM", "NxM", "big"])
+    r = rng.random()
+    if r < 0.04:
+        return rng.randrange(18, 41), rng.randrange(1500, 2600)  # wide: the record area exceeds typical I/O block sizes (64 KiB)
+    if r < 0.08:
+        return rng.randrange(400, 700), rng.randrange(1, 3)  # tall and narrow: many records per block
     if tier == "thorough" and rng.random() < 0.01:
         return rng.randrange(1500, 5001), rng.randrange(1, 3)  # beyond the default chunk size of 1024 lines
     if c == "1x1":
@@ -110,7 +115,7 @@ def run_case(i, tier, seed):
         order = [names["vol"], names["led"], *names["imgs"], names["trl"]]
         files["summary.txt"] = synth.summary_text(
             synth.default_summary_entries(order, names["tag"], names["pid"], names["scene"], [(1, 1)])).encode()
-        root = root0 if (pidx == 2 and root0) else harness.unique_root(kind)
+        root = root0 if (pidx == 2 and root0) else harness.unique_root(kind, rng=rng)
         if pidx == 0:
             root0 = root
         if pidx == 2:
